@@ -21,6 +21,7 @@ ASSUMPTIONS = [
 ]
 WATCHDOG = {"quick": 900, "thorough": 3600}
 SPECS = [(701, "BACK", 3.0, 10.0, 0), (701, "LAY", 2.0, 10.0, 0), (702, "BACK", 5.0, 6.0, 0)]
+SP_SPECS = [(702, "BACK", "MOC", 6.0), (701, "LAY", "LOC", 10.0), (702, "LAY", "MOC", 12.0)]  # cfg["sp"]: the first order is a starting-price bet
 HC_SPEC = (704, "LAY", 4.0, 8.0, -1.5)  # a handicap line: runner contexts are keyed (market, selection, handicap)
 
 
@@ -35,7 +36,7 @@ def plan(tier, seed):
                     cases.append({"mode": "dfs", "cfg": cfg, "prefix": [0, c0, c1, c2], "depth": d + 1, "tier": tier})
     nwalk = 8000 if tier == "quick" else 150000
     for i in range(nwalk):
-        cases.append({"mode": "walk", "seed": seed, "idx": i, "cfg": {"n": 1 + i % 3, "async": i % 4 == 3, "foreign": i % 5 == 0, "hc": i % 3 == 1}, "len": 10 + i % 5})
+        cases.append({"mode": "walk", "seed": seed, "idx": i, "cfg": {"n": 1 + i % 3, "async": i % 4 == 3, "foreign": i % 5 == 0, "hc": i % 3 == 1, "ext": i % 2 == 1, "sp": (i // 2) % 4 if i % 6 == 5 else 0}, "len": 10 + i % 5})
     # directed case for the listed finding C11-restart-replaced-bet
     cases.insert(0, {"mode": "events", "cfg": {"n": 1, "async": False}, "events": [["place", 0], ["resp", 0], ["fill", 0, 0.4], ["snap"], ["replace", 0], ["resp", 0], ["snap"], ["restart"]]})
     return cases
@@ -56,7 +57,7 @@ class Run:
         self.refs = {}  # i -> customer_order_ref
         self.objs = {}  # i -> order object placed in the first world
         self.placed = 0
-        self.budget = {"fill": 2, "lapse": 1, "req": 2, "snap": 3, "stale": 1, "restart": 1, "exch": 2}
+        self.budget = {"fill": 2, "lapse": 1, "req": 2, "snap": 3, "stale": 1, "restart": 1, "exch": 2, "void": 1, "sp": 1}
         self.saved = None
         self.log = []
         self.restarted = False
@@ -93,6 +94,11 @@ class Run:
                 ev.append(("exch", k))
         for i in range(self.placed):
             b = self.bet_of(i)
+            if b is not None and b["status"] == "EXECUTABLE" and self.cfg.get("ext"):
+                if self.budget["void"] > 0:
+                    ev.append(("void", i))  # the runner is withdrawn at the exchange
+                if b["orderType"] != "LIMIT" and self.budget["sp"] > 0:
+                    ev.append(("sp", i))  # the starting price is struck
             if b is not None and b["sizeRemaining"] > 0:
                 if self.budget["fill"] > 0:
                     ev.append(("fill", i, 1.0))
@@ -100,8 +106,10 @@ class Run:
                 if self.budget["lapse"] > 0:
                     ev.append(("lapse", i))
             o = self.local_of(i)
-            if o is not None and o.status is not None and o.status.name == "EXECUTABLE" and o.bet_id and self.budget["req"] > 0:
+            if o is not None and o.status is not None and o.status.name == "EXECUTABLE" and o.bet_id and self.budget["req"] > 0 and o.order_type.ORDER_TYPE.name == "LIMIT":
                 ev.append(("cancel", i))
+                if self.cfg.get("ext"):
+                    ev.append(("pcancel", i))
                 ev.append(("replace", i))
                 ev.append(("update", i))
         if self.budget["snap"] > 0:
@@ -121,8 +129,12 @@ class Run:
 
         try:
             if k == "place":
-                sel, side, price, size, hc = HC_SPEC if (self.cfg.get("hc") and e[1] == 0) else SPECS[e[1]]
-                o = livecases.make_order(st, self.mid, sel=sel, side=side, price=price, size=size, handicap=hc)
+                if self.cfg.get("sp") and e[1] == 0:
+                    sel, side, ot, liab = SP_SPECS[self.cfg["sp"] - 1]
+                    o = livecases.make_order(st, self.mid, sel=sel, side=side, otype=ot, liability=liab, price=3.0)
+                else:
+                    sel, side, price, size, hc = HC_SPEC if (self.cfg.get("hc") and e[1] == 0) else SPECS[e[1]]
+                    o = livecases.make_order(st, self.mid, sel=sel, side=side, price=price, size=size, handicap=hc)
                 self.refs[e[1]] = o.customer_order_ref
                 self.objs[e[1]] = o
                 self.placed += 1
@@ -136,6 +148,16 @@ class Run:
                 b = self.bet_of(e[1])
                 self.ex.fill(b["betId"], round(b["sizeRemaining"] * e[2], 2))
                 self.budget["fill"] -= 1
+            elif k == "void":
+                self.ex.void(self.bet_of(e[1])["betId"])
+                self.budget["void"] -= 1
+            elif k == "sp":
+                self.ex.reconcile_sp(self.bet_of(e[1])["betId"], 3.45)
+                self.budget["sp"] -= 1
+            elif k == "pcancel":
+                o = self.local_of(e[1])
+                self.budget["req"] -= 1
+                m.cancel_order(o, size_reduction=round(max(0.01, (o.size_remaining or 1.0) * 0.4), 2))
             elif k == "lapse":
                 self.ex.lapse(self.bet_of(e[1])["betId"])
                 self.budget["lapse"] -= 1
@@ -238,6 +260,7 @@ def judge(run, out):
             ("remaining", o.size_remaining, b["sizeRemaining"]),
             ("cancelled", o.size_cancelled, b["sizeCancelled"]),
             ("lapsed", o.size_lapsed, b["sizeLapsed"]),
+            ("voided", o.size_voided, b["sizeVoided"]),
         ):
             if abs((lv or 0.0) - ev) > 1e-9:
                 diffs[name] = (lv, ev)
